@@ -208,6 +208,8 @@ func runC13(c *Ctx) {
 		R.Ob("(*statusCollector).fillRemaining/ranges over the channels", c.P.Pos(f.Pos()), nOuter >= 1, "no range over the status map found")
 	}
 
+	R.Rule("R-state-writers", "who-may-write", "the BDAT status collector is created by handleBdat and dropped by reset()", 1)
+	c.obWriters("Conn.bdatStatus", "one collector per chunked LMTP message", "(*Conn).handleBdat", "(*Conn).reset")
 	ruleResultOnEveryExit(c) // "never deadlocks": the command loop blocks on the delivery result
 
 	R.Rule("R-status-nonblocking", "E1", "SetStatus and fillRemaining send only inside non-blocking selects on the recipient's channel; misuse panics instead of blocking the backend", 4)
